@@ -101,6 +101,35 @@ func jsonCells(tier string) []cells.Cell {
 			}
 		}
 	}
+	// a component that references another one sorting after it (forward) or before it (backward), the target
+	// nullable or not: what the referencing type knows about its target must not depend on build order
+	for _, dir := range []string{"forward", "backward"} {
+		for _, pos := range []string{"items", "property", "addprops"} {
+			for _, nullTarget := range []bool{false, true} {
+				s, _, _ := cells.Base()
+				target := "Zulu"
+				if dir == "backward" {
+					target = "Alpha"
+				}
+				tsc := spec.Obj(spec.P("name", spec.T("string")), spec.P("n", spec.TF("integer", "int32"))).Req("name")
+				if nullTarget {
+					tsc = tsc.Null()
+				}
+				addNamed(s, target, tsc)
+				var top *spec.Schema
+				switch pos {
+				case "items":
+					top = spec.Obj(spec.P("list", spec.Arr(spec.RefTo(target))))
+				case "property":
+					top = spec.Obj(spec.P("one", spec.RefTo(target)), spec.P("k", spec.T("string")))
+				case "addprops":
+					top = &spec.Schema{Type: "object", Add: spec.RefTo(target)}
+				}
+				addTop(s, top)
+				out = append(out, cells.NewCell("json-reforder", map[string]string{"dir": dir, "pos": pos, "nullTarget": b01(nullTarget)}, s))
+			}
+		}
+	}
 	// allOf member orders
 	members := map[string]func(s *spec.Spec) *spec.Schema{
 		"refAB": func(s *spec.Spec) *spec.Schema {
@@ -142,7 +171,7 @@ func jsonCells(tier string) []cells.Cell {
 	perms(nil, 2)
 	perms(nil, 3)
 	// oneOf shapes
-	for _, shape := range []string{"2", "3", "disc", "disc+mapping", "disc+partial-mapping", "inline-variants", "shared-optional"} {
+	for _, shape := range []string{"2", "3", "disc", "disc+mapping", "disc+partial-mapping", "inline-variants", "shared-optional", "inline-then-ref"} {
 		s, _, _ := cells.Base()
 		addNamed(s, "Cat", spec.Obj(spec.P("kind", spec.T("string")), spec.P("a", spec.T("string"))).Req("kind", "a"))
 		addNamed(s, "Dog", spec.Obj(spec.P("kind", spec.T("string")), spec.P("c", spec.TF("integer", "int32"))).Req("kind", "c"))
@@ -166,6 +195,10 @@ func jsonCells(tier string) []cells.Cell {
 			addNamed(s, "Person", spec.Obj(spec.P("phone", spec.T("string")), spec.P("zfirst", spec.T("string"))).Req("zfirst"))
 			addNamed(s, "Mailbox", spec.Obj(spec.P("phone", spec.T("string")), spec.P("zzaddr", spec.T("string"))).Req("zzaddr"))
 			top.OneOf = []*spec.Schema{spec.RefTo("Company"), spec.RefTo("Person"), spec.RefTo("Mailbox")}
+		case "inline-then-ref":
+			// an inline variant listed BEFORE a $ref variant whose required keys are a subset of its own
+			addNamed(s, "PersonRef", spec.Obj(spec.P("id", spec.TF("integer", "int32"))).Req("id"))
+			top.OneOf = []*spec.Schema{spec.Obj(spec.P("id", spec.TF("integer", "int32")), spec.P("email", spec.T("string"))).Req("id", "email"), spec.RefTo("PersonRef")}
 		case "inline-variants":
 			top.OneOf = []*spec.Schema{spec.Obj(spec.P("x", spec.T("string"))).Req("x"), spec.Obj(spec.P("y", spec.TF("integer", "int32"))).Req("y")}
 		}
@@ -181,6 +214,8 @@ func jsonCells(tier string) []cells.Cell {
 		"obj>map>obj":   spec.Obj(spec.P("m", &spec.Schema{Type: "object", Add: spec.Obj(spec.P("k", spec.T("string")))})),
 		"arr>nullable":  spec.Arr(spec.T("string").Null()),
 		"obj+props+map": {Type: "object", Props: []spec.Prop{spec.P("key", spec.T("string")), spec.P("n", spec.TF("integer", "int32"))}, Required: []string{"key"}, Add: spec.TF("integer", "int32")},
+		// property names outside ASCII
+		"unicode-props": spec.Obj(spec.P("größe", spec.TF("integer", "int32")), spec.P("prénom", spec.T("string")), spec.P("名前", spec.T("string")), spec.P("plain", spec.T("string"))).Req("größe", "prénom"),
 		// required names in declaration order, which is not the sorted order
 		"req-unsorted": spec.Obj(spec.P("id", spec.TF("integer", "int32")), spec.P("name", spec.T("string")), spec.P("email", spec.T("string")), spec.P("zip", spec.T("string")), spec.P("active", spec.T("boolean"))).Req("zip", "id", "name", "email"),
 		"time-props":   spec.Obj(spec.P("t", spec.TF("string", "date-time")), spec.P("ts", spec.Arr(spec.TF("string", "date-time")))).Req("t"),
